@@ -1174,6 +1174,31 @@ impl Property for C10 {
             "stub": ["Source::FileSystem arm (std::fs) -> SimFs via hook H1", "L1: FileWatcher::process_events replaced by the protocol table of DESIGN.md 4.2"],
         })
     }
+    fn extra_evidence(&self) -> serde_json::Value {
+        let path = crate::driver::verif_dir().join("calibration.json");
+        let calibration = std::fs::read_to_string(&path)
+            .ok()
+            .and_then(|t| serde_json::from_str::<serde_json::Value>(&t).ok());
+        match calibration {
+            Some(doc) => {
+                let variants = doc["variants"].as_array().cloned().unwrap_or_default();
+                json!({
+                    "stub_calibration": {
+                        "source": "calibration.json (written by `./check calibrate`, real notify 8.2.0 + notify-debouncer-full 0.7.0 on tmpfs)",
+                        "variants": variants.len(),
+                        "failed": doc["failed"],
+                        "status": variants.iter().map(|v| json!({"variant": v["variant"], "status": v["status"]})).collect::<Vec<_>>(),
+                    },
+                    "exhaustive_stratum": {
+                        "alphabet": crate::c10gen::ENUM_ALPHABET,
+                        "histories_up_to_2_ops": crate::c10gen::enum_count(2),
+                        "histories_up_to_3_ops": crate::c10gen::enum_count(3),
+                    }
+                })
+            }
+            None => json!({"stub_calibration": "calibration.json not found"}),
+        }
+    }
     fn sample(&self, scenario: &Scenario) -> serde_json::Value {
         match scenario {
             Scenario::C10(scn) => json!({
